@@ -8,6 +8,10 @@ import (
 	"github.com/foxcpp/maddy/framework/exterrors"
 )
 
+// MsgSuffix is appended to the text of every scripted SMTP error (multi-line and
+// non-ASCII error texts; set per behaviour by sequential drivers only).
+var MsgSuffix string
+
 // ErrFor returns an error value of the given class: "ok" (nil), "temp",
 // "perm" or "unspec" (no temporary/permanent marker at all).
 func ErrFor(res, where string) error {
@@ -16,10 +20,10 @@ func ErrFor(res, where string) error {
 		return nil
 	case "temp":
 		return &exterrors.SMTPError{Code: 451, EnhancedCode: exterrors.EnhancedCode{4, 3, 0},
-			Message: "scripted temporary failure at " + where, TargetName: "scripted"}
+			Message: "scripted temporary failure at " + where + MsgSuffix, TargetName: "scripted"}
 	case "perm":
 		return &exterrors.SMTPError{Code: 550, EnhancedCode: exterrors.EnhancedCode{5, 1, 1},
-			Message: "scripted permanent failure at " + where, TargetName: "scripted"}
+			Message: "scripted permanent failure at " + where + MsgSuffix, TargetName: "scripted"}
 	case "unspec":
 		return errors.New("scripted unclassified failure at " + where)
 	}
